@@ -5,6 +5,7 @@
 WT=$(realpath "$1"); shift
 HERE=$(dirname "$(realpath "$0")")
 cd "$WT" || exit 2
+export OPENBLAS_NUM_THREADS=1 OMP_NUM_THREADS=1 MKL_NUM_THREADS=1  # shared machine: no BLAS oversubscription
 # build the C rainflow extension in place if missing (the tests exercise it)
 if ! ls pyyeti/rainflow/c_rain*.so >/dev/null 2>&1; then
   gcc -O2 -shared -fPIC -I/root/.pyenv/versions/3.12.1/include/python3.12 \
